@@ -1708,3 +1708,22 @@ Proof.
   destruct (is_nil (filter (fun x => negb (x =? m)) (g_funcs g))); [|reflexivity].
   cbn [s_used set_tab set_used]. apply rmem_rdel_other. intro Hq. apply Hr. symmetry. exact Hq.
 Qed.
+
+Lemma http_request_current_member : forall reqs i c c' r who m,
+  nth_error reqs i = Some (QConn r who) -> nth_error (c_t c) i = Some TInit ->
+  step KHttp reqs i c = Run c' -> nth_error (c_t c') i = Some (TConn (CTo m)) ->
+  exists gid g, find_ep KHttp (c_s c) r = Some gid /\ nth_error (s_heap (c_s c)) gid = Some g /\
+                In m (g_funcs g) /\ In m (g_lns g).
+Proof.
+  intros reqs i c c' r who m Hr Ht Hs Hc. unfold step, stepg in Hs. rewrite Hr, Ht in Hs.
+  destruct (find_ep KHttp (c_s c) r) as [gid|] eqn:Ef.
+  2:{ inversion Hs; subst. simpl in Hc. rewrite nth_error_upd_same in Hc by (eapply nth_error_lt; exact Ht). discriminate. }
+  destruct (nth_error (s_heap (c_s c)) gid) as [g|] eqn:Eg; [|inversion Hs; subst; congruence].
+  destruct (http_pick g) as [g' o] eqn:Ep. inversion Hs; subst. simpl in Hc.
+  rewrite nth_error_upd_same in Hc by (eapply nth_error_lt; exact Ht). inversion Hc; subst o.
+  exists gid, g. split; [reflexivity|]. split; [exact Eg|].
+  unfold http_pick in Ep. destruct (g_lns g) as [|a l] eqn:El; [inversion Ep|].
+  destruct (nth_error (a :: l) _) as [name|] eqn:En; [|inversion Ep].
+  destruct (zmem name (g_funcs g)) eqn:Ez; inversion Ep; subst.
+  split; [apply zmem_In; exact Ez|eapply nth_error_In; exact En].
+Qed.
